@@ -98,9 +98,11 @@ def actions_for(g, r, quick, nval):
     return acts, vals
 
 
-def same(real, model, script):
+def same(real, model, script, action=None):
     """'same' | 'drift' (equal up to sf flags of inner nodes, tolerated only when amoco itself shares
-    objects) | 'diff'"""
+    objects; with an environment that binds a register to a compound expression the objects of that
+    expression are shared by every evaluated occurrence — and possibly the result itself —, there the
+    comparison is up to all sf flags) | 'diff'"""
     if real[0] != "ok" or not isinstance(model, list) or model[0] != "ok":
         return "same" if real[:2] == (model[:2] if isinstance(model, list) else None) else "diff"
     rd = R.strip_smask(real[1])
@@ -108,6 +110,9 @@ def same(real, model, script):
         return "same"
     if real[2] == model[2] and real[3] == model[3] and R.strip_sf(rd) == R.strip_sf(model[1]):
         if real[4] or any(i[0] in SHARERS for i in script):
+            return "drift"
+    if action is not None and action[0] == "evalx" and any(len(b[2]) > 1 for b in action[1]):
+        if real[2] == model[2] and real[3] == model[3] and R.strip_sf(rd, False) == R.strip_sf(model[1], False):
             return "drift"
     return "diff"
 
@@ -258,7 +263,9 @@ def run_check(prop, tier):
         mods = ["Amoco.Props.%s" % prop, "Amoco.Proofs.ExprComp", "Amoco.Proofs.ExprWidth", "Amoco.Proofs.ExprEvalWidth"]
         if want_c01:
             mods += ["Amoco.Proofs.ExprBits", "Amoco.Proofs.ExprArith", "Amoco.Proofs.ExprCst", "Amoco.Proofs.ExprCompSem",
-                     "Amoco.Proofs.ExprEvalSound"]
+                     "Amoco.Proofs.ExprEvalSound", "Amoco.Proofs.ExprTableSem", "Amoco.Proofs.ExprSoundBase",
+                     "Amoco.Proofs.ExprTablePres", "Amoco.Proofs.ExprSound", "Amoco.Proofs.ExprSoundOps",
+                     "Amoco.Proofs.ExprSoundSlice", "Amoco.Proofs.ExprSoundEqn", "Amoco.Proofs.ExprSoundSimp"]
         p = subprocess.run(["lake", "env", "leanchecker"] + mods, cwd=LEAN, stdout=subprocess.PIPE, stderr=subprocess.STDOUT,
                            text=True, timeout=1800)
         ck.oblige("leanchecker " + " ".join(mods), p.returncode == 0, p.stdout[-1500:])
@@ -444,7 +451,7 @@ def run_check(prop, tier):
                     corr_broken.append((script, cx, a, real, m, "widening"))
                 continue
             if want_c01:
-                s = same(real, m, script)
+                s = same(real, m, script, a)
             else:
                 s = same_width(real, m)
             ck.count("tie." + s)
@@ -514,7 +521,7 @@ def run_check(prop, tier):
     ck.oblige("correspondence model ~ real on build/simplify/eval", not corr_broken, "%d disagreements" % len(corr_broken))
     ck.assumptions += [
         "string-hash collisions of CPython are not modelled (exp.__eq__ compares hash(str)+size)",
-        "object identity is not modelled: where amoco itself places one object at two positions (extend, rol, bitslice) results are compared up to the sf flags of inner nodes (counted as tie.drift)",
+        "object identity is not modelled: where amoco itself places one object at two positions (extend, rol, bitslice) results are compared up to the sf flags of inner nodes (counted as tie.drift); likewise, under an environment that binds a register to a compound expression, eval hands out the stored objects (a C09 concern) and results are compared up to sf flags",
         "vec/vecw results (widening) are compared by outcome class and size only (C19's fragment)",
         "shift amounts between 2^16 and 2^60 are not generated: the real code would compute `int << n` literally",
         "signed `/` and `%`: the oracle accepts floor and truncate; sign-dependent operators are judged only when every leaf below both operands carries the declared signedness",
